@@ -134,6 +134,10 @@ pub enum Op {
     },
     /// creates `$TMPDIR/<rel>` on the real filesystem
     Touch { rel: String },
+    /// leaves a directory tree `levels` deep under `$TMPDIR`, every level named by `name_len`
+    /// characters: with 30 x 200 the absolute path is longer than PATH_MAX and only reachable
+    /// step by step (tier S-cli only: the tree is made by changing the process' directory)
+    DeepTree { levels: u32, name_len: u32 },
     /// the shell closes its standard input (`exec <&-`) and runs on: whatever of the script it
     /// had not read yet is never read - for the parent the script pipe now has no reader
     /// (POLLERR / EPIPE) although the process is alive
